@@ -63,8 +63,9 @@ class Runner:
         if self._cases is not None:
             return self._cases
         cs = []
-        for n in range(1, self.n + 1):
-            for kinds, reads in D.graphs(n, self.edges if n == 3 else None):
+        for n in range(1, max(self.n, 3) + 1):
+            only_two_deps = n > self.n     # beyond the tier's n only the two-dependency markings are generated (edge bound 1)
+            for kinds, reads in D.graphs(n, (self.edges if not only_two_deps else 1) if n == 3 else None):
                 for place in D.placements(n):
                     L = D.Layout(kinds, reads, place)
                     twins = [(j, c) for (j, c) in L.needed_twins() if j != 't']
@@ -79,6 +80,8 @@ class Runner:
                     if 'S' in kinds:
                         marks.append((('voi',),))
                     marks.append((('foreign',),))
+                    if only_two_deps:
+                        marks = [mm for mm in marks if len(mm) == 1 and mm[0][0] == 'home']
                     for m in marks:
                         deps = [None]
                         if len(m) == 1 and m[0][0] == 'home':
@@ -88,11 +91,19 @@ class Runner:
                                     deps.append(('var', j))
                             deps += [('self',), ('foreign',)]
                         for d in deps:
-                            cs.append((kinds, reads, place, m, d, None))
+                            if not only_two_deps:
+                                cs.append((kinds, reads, place, m, d, None, 0))
+                        # two declared dependencies living in different components, also with names shared across components
+                        if len(m) == 1 and m[0][0] == 'home' and n == 3:
+                            i = m[0][1]
+                            oth = [j for j in range(n) if j != i]
+                            if all(not depends_on(kinds, reads, j, {i}) and kinds[j] != 'S' for j in oth) and place[oth[0]] != place[oth[1]]:
+                                for rn in (0, 4):
+                                    cs.append((kinds, reads, place, m, ('vars', oth[0], oth[1]), None, rn))
                     # under-constrained only by the marked variable
                     for i in range(n):
-                        if kinds[i] in 'EN':
-                            cs.append((kinds, reads, place, (('home', i),), None, i))
+                        if kinds[i] in 'EN' and not only_two_deps:
+                            cs.append((kinds, reads, place, (('home', i),), None, i, 0))
         self._cases = cs
         return cs
 
@@ -101,15 +112,15 @@ def families(opts):
     r = Runner(opts)
 
     def describe(case):
-        kinds, reads, place, m, d, drop = case
-        return {'kinds': ''.join(kinds), 'reads': [sorted(map(str, x)) for x in reads], 'place': list(place), 'marked': [list(x) for x in m], 'dependency': list(d) if d else None, 'dropped_equation_of': drop}
+        kinds, reads, place, m, d, drop, rn = case
+        return {'rename': rn, 'kinds': ''.join(kinds), 'reads': [sorted(map(str, x)) for x in reads], 'place': list(place), 'marked': [list(x) for x in m], 'dependency': list(d) if d else None, 'dropped_equation_of': drop}
 
     def run_ext(ci, ctx):
         case = r.cases()[ci]
-        kinds, reads, place, m, d, drop = case
+        kinds, reads, place, m, d, drop, rn = case
         n = len(kinds)
         desc = describe(case)
-        L = D.Layout(kinds, reads, place, drop_eq=drop)
+        L = D.Layout(kinds, reads, place, drop_eq=drop, rename=rn)
         doc = L.render()
 
         def rep(sig, det=None):
@@ -139,6 +150,8 @@ def families(opts):
             if d and x == m[0]:
                 if d[0] == 'var':
                     e['deps'].append(L.ref(d[1]))
+                elif d[0] == 'vars':
+                    e['deps'] += [L.ref(d[1]), L.ref(d[2])]
                 elif d[0] == 'self':
                     e['deps'].append(L.ref(x[1]))
                 else:
@@ -168,9 +181,9 @@ def families(opts):
             added = er[0]['deps_added'][0] if er[0]['deps_added'] else None
             if d[0] in ('self', 'foreign') and added:
                 rep('addDependency-accepts-%s' % d[0])
-            if d[0] == 'var' and not added:
+            if d[0] in ('var', 'vars') and not all(er[0]['deps_added']):
                 rep('addDependency-refuses-legal-dependency')
-        if only_state_marked:
+        if only_state_marked and r.prop != 'C17':
             ctx.outcome('only-state-marked(not judged: the VOI is left dangling)')
             return
         kind_tag = special or ('+'.join(kinds[i] for i in sorted(marked_classes)) + ('+dropped' if drop is not None else ''))
@@ -244,7 +257,7 @@ def families(opts):
             for e in res.get(arr, []):
                 idx[L.class_of(e['comp'], e['var'])] = (arr, e['index'])
         ext_index = {idx[i][1]: i for i in want_ext if i in idx}
-        dep_cls = d[1] if d and d[0] == 'var' else None
+        dep_classes = [d[1]] if d and d[0] == 'var' else [d[1], d[2]] if d and d[0] == 'vars' else []
 
         def nla(obj, u, nn, arrays):
             sent = [98765.4321 + 7 * k for k in range(nn)]
@@ -264,10 +277,11 @@ def families(opts):
             calls = []
 
             def cb(voi, arrays, index, calls=calls):
-                snap = None
-                if dep_cls is not None and dep_cls in idx:
-                    a, ix = idx[dep_cls]
-                    snap = arrays[a][ix]
+                snap = {}
+                for dc in dep_classes:
+                    if dc in idx:
+                        a, ix = idx[dc]
+                        snap[dc] = arrays[a][ix]
                 calls.append((index, snap))
                 cls = ext_index.get(index)
                 return EXTVAL[cls] if cls is not None else -777.0
@@ -292,14 +306,16 @@ def families(opts):
                     rep('external-value-not-obtained-through-callback:%s' % prof, {'var': cls})
                 if not X.close(out['variables'][ix], EXTVAL[cls]):
                     rep('external-slot-does-not-hold-callback-value:%s' % prof, {'var': cls, 'got': repr(out['variables'][ix])})
-            if dep_cls is not None and ext_index:
+            if dep_classes and ext_index:
                 (eix, ecls), = list(ext_index.items())[:1]
                 last = [c for c in calls if c[0] == eix]
                 if last:
-                    snap = last[-1][1]
-                    want = ref[dep_cls][0] if isinstance(ref[dep_cls], tuple) else ref[dep_cls]
-                    if snap is None or not X.close(snap, want):
-                        rep('callback-invoked-before-declared-dependency-is-computed:%s:%s-depends-on-%s' % (prof, kinds[ecls], kinds[dep_cls]), {'dependency_slot': repr(snap), 'want': repr(want)})
+                    for dc in dep_classes:
+                        snap = last[-1][1].get(dc)
+                        want = ref[dc][0] if isinstance(ref[dc], tuple) else ref[dc]
+                        if snap is None or not X.close(snap, want):
+                            rep('callback-invoked-before-declared-dependency-is-computed:%s:%s-depends-on-%s%s' % (prof, kinds[ecls], kinds[dc], ':two-dependencies' if len(dep_classes) > 1 else ''),
+                                {'dependency': dc, 'dependency_slot': repr(snap), 'want': repr(want)})
             for i in range(n):
                 if i in want_ext or i not in idx:
                     continue
@@ -313,7 +329,7 @@ def families(opts):
     def show(ci):
         case = r.cases()[ci]
         dsc = describe(case)
-        dsc['document'] = D.Layout(case[0], case[1], case[2], drop_eq=case[5]).render()
+        dsc['document'] = D.Layout(case[0], case[1], case[2], drop_eq=case[5], rename=case[6]).render()
         return dsc
 
     import atexit
